@@ -198,6 +198,13 @@ def run(ctx):
         configs.append(("4 sites, order 1, ancillas, 3 steps", config(4, 2, 2, 3, 8, 1, [1, 1, 2], [1, 1, 0, 2],
                         [["SC", "I", "CSP", "I"], ["I", "SW", "I", "I"], ["CSP", "I", "SC", "I"]], [1, 0, 1, 0], "{}",
                         [[1], [2], [3], [4], [1, 2], [3, 4], [1, 2, 3, 4]], True)))
+    if not quick:
+        configs.append(("5 sites, order 2, ancillas on sites 2 and 4", config(5, 2, 2, 2, 8, 2, [1, 2, 3, 1], [1, 0, 1, 2, 1],
+                        [["I", "CSP", "I", "SC", "I"], ["I", "SC", "I", "CS", "I"]], [0, 1, 0, 1, 0], "{}",
+                        [[1], [3], [5], [2, 3], [1, 5], [2, 3, 4]], True)))
+        configs.append(("6 sites, order 1, one step", config(6, 2, 2, 1, 8, 1, [1, 2, 3, 1, 2], [1, 0, 1, 2, 1, 3],
+                        [["I", "CSP", "I", "I", "SW", "I"]], [0, 1, 0, 0, 1, 0], "{}",
+                        [[1], [6], [3, 4], [1, 6]], True)))
     cases = []
     for label, consts in configs:
         r = ctx.tlc("Chain", CFG, label=label, constants=consts, workers=4)
